@@ -99,14 +99,20 @@ SOCKS5 tunnel request, on every path including the cross-node broadcast — the 
 every `target_client_id`. -/
 theorem C11_body_target_ignored (v : Variant) (w : World) (f : Nat) (c : Cmd) (g' : Int) (ha : addressed c = false) :
     exec v w f { c with g := g' } = exec v w f c := by
+  have hdsp : execDispatch v w f { c with g := g' } = execDispatch v w f c := by
+    unfold execDispatch
+    show (match dispatch c.ctype c.resp with
+          | none => Run.err
+          | some h => execH v h w f { c with g := g' }) = _
+    cases hd : dispatch c.ctype c.resp with
+    | none => rfl
+    | some h =>
+      cases h <;> first | rfl | (simp [addressed, hd] at ha)
   unfold exec
-  show (match dispatch c.ctype c.resp with
-        | none => Run.err
-        | some h => execH v h w f { c with g := g' }) = _
-  cases hd : dispatch c.ctype c.resp with
-  | none => rfl
-  | some h =>
-    cases h <;> first | rfl | (simp [addressed, hd] at ha)
+  show (if (w.noExec && (special c.ctype c.resp).isNone) = true then execNoExec w f { c with g := g' }
+        else execDispatch v w f { c with g := g' }) = _
+  rw [hdsp]
+  rfl
 
 theorem addressed_strip (c : Cmd) (g' : Int) : addressed { c with g := g' } = addressed c := rfl
 
@@ -161,22 +167,26 @@ theorem C11_main (w : World) (f : Nat) (c : Cmd) :
     holds w f c (exec .repaired w f c) (exec .repaired w f c.strip) = true := by
   have hs : exec .repaired w f c.strip = exec .repaired w f c := C11_strip _ w f c
   simp only [holds, hs, decide_true, Bool.true_and]
-  unfold exec guarded
-  cases hd : dispatch c.ctype c.resp with
-  | none => exact holdsRun_err ..
-  | some h => exact C11_handler_holds w f c h hd
+  unfold exec
+  split
+  · exact execNoExec_holds ..
+  · unfold execDispatch guarded
+    cases hd : dispatch c.ctype c.resp with
+    | none => exact holdsRun_err ..
+    | some h => exact C11_handler_holds w f c h hd
 
 /-- **Unauthenticated connections are refused**: on a connection that has no authenticated client
 (never shook hands, or registered but not authenticated) every command whose rule needs an identity —
 list/get/delete/create/activate/report/tunnel-request/DNS-forward/notify — is not answered with
-success, changes no client-owned state, discloses no object and reaches no connection. -/
+success, changes no client-owned state, discloses no object and reaches no other connection — in every
+configuration (executor installed or not, bridge or not). -/
 theorem C11_unauthenticated_refused (w : World) (f : Nat) (c : Cmd) (h0 : ident w f = 0)
     (hg : guarded c.ctype c.resp = true) :
     (exec .repaired w f c).rsp ≠ .ok ∧ (exec .repaired w f c).chg = [] ∧ (exec .repaired w f c).view = [] ∧
-    (exec .repaired w f c).dlv = [] := by
+    (∀ d ∈ (exec .repaired w f c).dlv, d.conn = f) := by
   have hm := C11_main w f c
   simp only [holds, Bool.and_eq_true, holdsRun, hg, h0, bne_self_eq_false, Bool.false_or, List.isEmpty_iff,
-    Bool.not_true, bne_iff_ne, ne_eq] at hm
+    Bool.not_true, bne_iff_ne, ne_eq, List.all_eq_true, beq_iff_eq] at hm
   obtain ⟨_, _, ⟨⟨hv, hc⟩, hd⟩, hr⟩ := hm
   exact ⟨hr, hc, hv, hd⟩
 
@@ -192,7 +202,7 @@ and codes of the world are strings like any other.) -/
 theorem C11_no_identity_borrowing (w : World) (f j : Nat) (c : Cmd) (h0 : ident w f = 0)
     (hg : guarded c.ctype c.resp = true) :
     let r := exec .repaired w f { c with snd := connName j, rcv := connName j, tok := connName j }
-    r.rsp ≠ .ok ∧ r.chg = [] ∧ r.view = [] ∧ r.dlv = [] := by
+    r.rsp ≠ .ok ∧ r.chg = [] ∧ r.view = [] ∧ (∀ d ∈ r.dlv, d.conn = f) := by
   have h := C11_noninterference .repaired w f c (connName j) (connName j) (connName j) c.extra
   have hc : ({ c with snd := connName j, rcv := connName j, tok := connName j, extra := c.extra } : Cmd) =
       { c with snd := connName j, rcv := connName j, tok := connName j } := rfl
@@ -202,9 +212,11 @@ theorem C11_no_identity_borrowing (w : World) (f j : Nat) (c : Cmd) (h0 : ident 
 
 /-- even a command that needs no identity changes, discloses and pushes nothing on such a connection -/
 theorem C11_unauthenticated_inert (w : World) (f : Nat) (c : Cmd) (h0 : ident w f = 0) :
-    (exec .repaired w f c).chg = [] ∧ (exec .repaired w f c).view = [] ∧ (exec .repaired w f c).dlv = [] := by
+    (exec .repaired w f c).chg = [] ∧ (exec .repaired w f c).view = [] ∧
+    (∀ d ∈ (exec .repaired w f c).dlv, d.conn = f) := by
   have hm := C11_main w f c
-  simp only [holds, Bool.and_eq_true, holdsRun, h0, bne_self_eq_false, Bool.false_or, List.isEmpty_iff] at hm
+  simp only [holds, Bool.and_eq_true, holdsRun, h0, bne_self_eq_false, Bool.false_or, List.isEmpty_iff,
+    List.all_eq_true, beq_iff_eq] at hm
   obtain ⟨_, _, ⟨⟨hv, hc⟩, hd⟩, _⟩ := hm
   exact ⟨hc, hv, hd⟩
 
@@ -346,6 +358,10 @@ example : holds wTwo 0 (cmdOf 90 0 2002 0) ⟨true, .none, [], [], [⟨2, 35, no
   decide
 example : holds wTwo 0 (cmdOf 90 0 2002 0) ⟨true, .none, [], [], [⟨2, 35, none⟩], []⟩ ⟨true, .none, [], [], [⟨1, 35, none⟩], []⟩ = false := by
   decide
+/-- no executor installed: ConfigGet on the unauthenticated connection 3 pushes an (empty) configuration to
+connection 3 itself and discloses nothing; the listen party gets its own mappings -/
+example : exec .repaired { wStd with noExec := true } 3 (cmdOf 50 0 0 0) = ⟨true, .none, [], [], [⟨3, 51, none⟩], []⟩ := by decide
+example : (exec .repaired { wStd with noExec := true } 0 (cmdOf 50 0 0 0)).view = [.map 0] := by decide
 /-- read faults: the stranger's MappingDelete whose ownership read fails is refused and changes nothing; the
 listen party's delete whose second read fails still only touches its own mapping; `holds` rejects the
 observation "deleted for the stranger" -/
